@@ -51,8 +51,9 @@ Theorem C04_badfilter_cancels_exactly : forall L y,
 Proof. exact badfilter_cancels_exactly. Qed.
 Print Assumptions C04_badfilter_cancels_exactly.
 
-(* same pattern and same matching options => cancelled (the converse is the id-collision
-   assumption: compute_filter_id is not injective, known finding F20) *)
+(* same pattern and same matching options => cancelled (the converse: different fields give
+   different symbol sequences, C04_id_encoding_injective below, so only a collision of the 64-bit
+   hash itself could cancel a different rule: the property's own no-collision assumption) *)
 Theorem C04_badfilter_cancels_same : forall L y z,
   In z L -> is_badfilter z = true -> same_modulo_badfilter y z -> ~ In y (live L).
 Proof. exact badfilter_cancels_same. Qed.
@@ -80,3 +81,29 @@ Print Assumptions C04_src_category_chain_add.
 Theorem C04_src_badfilter_skip : forall f c e, eval (pv_of f c e) new_skip = c || is_badfilter f.
 Proof. exact new_skip_is_not_live. Qed.
 Print Assumptions C04_src_badfilter_skip.
+
+(* ------------------------------------------------------------------ the id is the hash of an
+   INJECTIVE encoding of (modifier, included domains, excluded domains, filter, hostname): the
+   former collisions (F20: filter/hostname split; F29: sign of a domain) are gone by construction
+   (/repo b71a5fe) *)
+From Adb Require Import C04_Id_Proofs.
+
+Theorem C04_id_is_hash_of_symbols : forall f,
+  get_id f = fold_left id_step (id_symbols (rmod f) (fpart_view (rfilter f)) (rhost f) (rdomains f) (rnotdomains f))
+                       (N.lxor (5408 * 33) (rmask f)).
+Proof. exact get_id_is_hash_of_symbols. Qed.
+Print Assumptions C04_id_is_hash_of_symbols.
+
+Theorem C04_id_encoding_injective : forall m f h d nd m' f' h' d' nd',
+  plain (mod_syms m) = true -> oplain d = true -> oplain nd = true -> oplain f = true -> oplain h = true ->
+  plain (mod_syms m') = true -> oplain d' = true -> oplain nd' = true -> oplain f' = true -> oplain h' = true ->
+  id_symbols m f h d nd = id_symbols m' f' h' d' nd' ->
+  mod_syms m = mod_syms m' /\ d = d' /\ nd = nd' /\ f = f' /\ h = h'.
+Proof. exact id_symbols_inj. Qed.
+Print Assumptions C04_id_encoding_injective.
+
+Theorem C04_id_decodable : forall m f h d nd,
+  plain (mod_syms m) = true -> oplain d = true -> oplain nd = true -> oplain f = true -> oplain h = true ->
+  decode (id_symbols m f h d nd) = (mod_syms m, d, nd, f, h).
+Proof. exact decode_id_symbols. Qed.
+Print Assumptions C04_id_decodable.
